@@ -15,9 +15,9 @@ TARGETS = ["C12_Props.vo", "C12_Check.vo"]
 HARNESS = ["control/common_test.go", "control/c12_test.go"]
 HARNESS_DNS = ["dns/common_test.go", "dns/c12_test.go"]
 
-SPEC_CODES = {2, 5, 8, 11, 14, 22, 26, 27, 31, 90, 91}      # impl <> spec (90 panic, 91 error)
-MODEL_CODES = {1, 4, 7, 10, 13, 15, 20, 21, 23, 30, 98, 99}     # impl <> model
-THM_CODES = {3, 6, 9, 12, 24, 25, 32}                       # model <> spec
+SPEC_CODES = {2, 5, 8, 11, 14, 22, 26, 27, 28, 29, 31, 90, 91}      # impl <> spec (90 panic, 91 error)
+MODEL_CODES = {1, 4, 7, 10, 13, 15, 20, 21, 23, 30, 33, 34, 98, 99}     # impl <> model
+THM_CODES = {3, 6, 9, 12, 24, 25, 32, 35}                       # model <> spec
 CODE_TEXT = {
     1: "Prefix2bin128 <> model", 2: "Prefix2bin128 <> leading len bits of the mapped address", 3: "model Prefix2bin128 <> spec",
     4: "HasPrefix <> model trie", 5: "trie membership <> CIDR containment", 6: "model trie <> containment",
@@ -27,6 +27,10 @@ CODE_TEXT = {
     20: "lpm indices <> model", 21: "stored sets <> model", 22: "RoutingMatcher.Match <> first rule whose own set contains the address",
     23: "Match <> model", 24: "model Match <> spec", 25: "model kernel decision <> spec",
     26: "two rules share an LPM index though their sets differ", 27: "kernel decision over the stored sets <> spec",
+    28: "the kernel keys written from the snapshot and the userspace trie disagree on a probe of a rule's set (index = 100*BuildKernspace call + rule)",
+    29: "the kernel keys written from the snapshot do not describe the set the rule was given (index = 100*BuildKernspace call + rule)",
+    33: "key lists handed to the kernel <> model (canonical list of every stored set, whatever the order)", 34: "per-set userspace trie <> model",
+    35: "model key lists <> the set",
     30: "ResponseMatcher.Match <> model", 31: "ResponseMatcher.Match <> first rule whose own set contains an answer address",
     32: "model response match <> spec",
     90: "panic", 91: "error", 99: "observation of wrong length"}
@@ -69,6 +73,12 @@ def lifted_source():
             raise RuntimeError("anchor moved: %s no longer calls hashLpmSet exactly once" % name)
         g = g.replace("hashLpmSet(", "c12ConstHash(").replace(") %s(" % name, ") %s(" % new, 1)
         out.append(g)
+    # the replay of snapshot.BuildKernspace in the harness follows these lines; fail loudly when they move
+    for pat, what in ((r"return buildRoutingKernspace\(log, bpf, s\.rules, s\.simulatedLpmTries, s\.dedupCount\)", "routingKernspaceSnapshot.BuildKernspace"),
+                      (r"keys\[j\] = cidrToBpfLpmKey\(cidr\)", "key conversion loop of buildRoutingKernspace"),
+                      (r"simulatedLpmTries:\s+b\.simulatedLpmTries,", "KernspaceSnapshot")):
+        if not re.search(pat, s2):
+            raise RuntimeError("anchor moved: %s (%s) not found in %s" % (what, pat, p2))
     head = ("//go:build verif\n\n// GENERATED by tools/c12.py from control/bpf_utils.go and control/routing_matcher_builder.go. Do not edit.\n\n"
             "package control\n\nimport (\n\t\"encoding/binary\"\n\t\"net/netip\"\n\n\t\"github.com/daeuniverse/dae/common\"\n"
             "\t\"github.com/daeuniverse/dae/common/consts\"\n\t\"github.com/daeuniverse/dae/component/routing\"\n"
@@ -227,6 +237,14 @@ def sweep_cases(patterns):
     return out
 
 
+# the orders in which control_plane.go takes the kernel snapshot, writes the kernel keys from it and builds the
+# userspace matcher: first start; staged reload (keys at listener cutover); staged reload rolled back (keys again);
+# first start followed by a rollback rebuild
+ORDERS = [("snapshot", "install", "userspace"), ("snapshot", "userspace", "install"),
+          ("snapshot", "userspace", "install", "install"), ("snapshot", "install", "userspace", "install")]
+STEP_COQ = {"snapshot": "SSnapshot", "install": "SInstall", "userspace": "SUserspace"}
+
+
 def fmt_mac(m):
     return ":".join("%02x" % (m >> (8 * (5 - i)) & 255) for i in range(6))
 
@@ -265,7 +283,13 @@ def gen_builder_case(rng, big=False):
     packets = []
     for _ in range(24 if big else 12):
         packets.append([fmt_addr128(rng.choice(addrs), rng), fmt_addr128(rng.choice(addrs), rng), ipaddress.IPv6Address(rng.choice(macvals)).compressed])
-    return {"kind": "builder", "ops": ops, "packets": packets, "consthash": rng.random() < 0.35}
+    probes = list(dict.fromkeys(addrs + macvals))
+    if len(probes) > (28 if big else 16):
+        head, rest = probes[:4], probes[4:]
+        rng.shuffle(rest)
+        probes = head + rest[:(24 if big else 12)]
+    return {"kind": "builder", "ops": ops, "packets": packets, "consthash": rng.random() < 0.35,
+            "order": list(rng.choice(ORDERS)), "set_probes": [fmt_addr128(x, rng) for x in probes]}
 
 
 def gen_response_case(rng, big=False):
@@ -366,11 +390,22 @@ def builder_case_to_coq(case, res, pool):
     if res["indices"] != res["value_indices"]:
         raise ValueError("compiledRules lpmIndex %r <> bpfMatchSet.Value index %r" % (res["indices"], res["value_indices"]))
     pk = ["(Build_packet %s %s %s)" % (pool.n(addr_val(p[0])), pool.n(addr_val(p[1])), pool.n(addr_val(p[2]))) for p in case["packets"]]
-    return ("(Build_builder_case %s %s %s %s %s %s %s)" % (
+    order = case.get("order") or ["snapshot", "install", "userspace"]
+    installs = res.get("installs") or []
+    for k, inst in enumerate(installs):
+        if inst.get("err"):
+            raise ValueError("snapshot.BuildKernspace #%d: %s" % (k, inst["err"]))
+        if inst["rule_idx"] != res["indices"]:
+            raise ValueError("snapshot.BuildKernspace #%d: the snapshot's rules point at sets %r, the builder's at %r" % (k, inst["rule_idx"], res["indices"]))
+    return ("(Build_builder_case %s %s %s %s %s %s %s %s %s %s %s)" % (
         vlib.cbool(res["big"]), vlib.cbool(case["consthash"]), clist(ops), clist(pk),
         clist([str(i) for i in res["indices"] or []]),
         clist([clist([cprefix(d, pool) for d in t]) for t in res["tries"] or []]),
-        clist(["None" if m < 0 else "(Some %d)" % m for m in res["matches"] or []])))
+        clist(["None" if m < 0 else "(Some %d)" % m for m in res["matches"] or []]),
+        clist([STEP_COQ[x] for x in order]),
+        clist([pool.n(addr_val(a)) for a in case.get("set_probes") or []]),
+        clist([clist([clist([cpair(str(k["prefixlen"]), pool.n(pack4(k["data"]))) for k in ks]) for ks in inst["keys"]]) for inst in installs]),
+        clist([clist([vlib.cbool(h) for h in row]) for row in res.get("trie_has") or []])))
 
 
 def response_case_to_coq(case, res, pool):
@@ -518,13 +553,15 @@ def shrink(sc, binaries, case, errs=None):
         hit = failing([dict(case, prefixes=[p_], probes=[q]) for p_ in ps[:6] for q in qs[:8]], "shrink0")
         if hit is not None:
             return hit
-    lists = {"set": ("prefixes", "probes"), "builder": ("ops", "packets"), "response": ("rules", "answers")}[case["kind"]]
+    lists = {"set": ("prefixes", "probes"), "builder": ("ops", "packets", "set_probes"), "response": ("rules", "answers")}[case["kind"]]
     for rnd in range(40):
         case = best[0]
         cands = []
         for key in lists:
-            if len(case[key]) > 1:
+            if len(case.get(key) or []) > 1:
                 cands += [dict(case, **{key: case[key][:i] + case[key][i + 1:]}) for i in range(len(case[key]))]
+        if case["kind"] == "builder" and case.get("packets") and len(case.get("set_probes") or []) > 0:
+            cands.append(dict(case, packets=[]))
         if case["kind"] != "set":
             key = lists[0]
             for j, it in enumerate(case[key]):
@@ -715,10 +752,13 @@ def main(argv):
                         "signature = (#rules, #distinct outcomes, #multi-address answers); non-trivial = more than one outcome") % len(sweep),
                    set_feature_counts=flags, set_cases=len(ssigs), builder_cases=len(bsigs), response_cases=len(rsigs),
                    builder_cases_with_sharing=sum(1 for s in bsigs if int(s[1]) > 0),
+                   builder_orders={"/".join(o): sum(1 for c in cases if c["kind"] == "builder" and tuple(c.get("order") or ORDERS[0]) == o) for o in ORDERS},
                    traces_validated_against_impl=n_eval - len(model_fail),
                    comparisons="per prefix: Prefix2bin128 / cidrToBpfLpmKey vs model (and vs spec bits); per probe: HasPrefix vs model trie vs containment, LPM lookup over the "
                                "implementation's keys vs containment, userspace vs kernel; canonicalizePrefixes, hashLpmSet vs model; builder: lpm indices, stored sets, "
                                "RoutingMatcher.Match outcome vs model vs first-hit spec, kernel decision over the stored sets, sharing only between identical sets; "
+                               "per order of KernspaceSnapshot / BuildUserspace / snapshot.BuildKernspace (first start, staged reload, rollback): the key lists the replayed "
+                               "BuildKernspace takes from the snapshot vs model (canonical list of every set), and per rule and probe kernel keys vs userspace trie vs the rule's set; "
                                "ResponseMatcher.Match outcome vs model vs spec",
                    samples=[c for c in first.values() if c is not None],
                    widened_search=widened,
